@@ -190,6 +190,7 @@ func historyCase(c *h.Case) {
 	var mu sync.Mutex
 	var ops []porcupine.Operation
 	closeRet := map[string]int64{} // ident -> return time of its acknowledged close
+	closeCall := map[string]int64{}
 	record := func(client int, in hIn, out hOut, call, ret int64) {
 		mu.Lock()
 		ops = append(ops, porcupine.Operation{ClientId: client, Input: in, Output: out, Call: call, Return: ret})
@@ -235,6 +236,7 @@ func historyCase(c *h.Case) {
 					delete(own, tri)
 					mu.Lock()
 					closeRet[identOf(i, name)] = ret
+					closeCall[identOf(i, name)] = call
 					mu.Unlock()
 					record(i-1, hIn{Op: "close", Triple: tri, Ident: identOf(i, name)}, hOut{OK: true}, call, ret)
 					run.Count("hist_closes", 1)
@@ -276,12 +278,19 @@ func historyCase(c *h.Case) {
 		a := ua.do(r)
 		ret := h.Now()
 		out := hOut{Owner: a.Ident}
+		if a.Dropped {
+			// closed without alert: the connection was routed to a listener that closed before the hand-over completed
+			out.Unk = true
+			run.Count("hist_tls_dropped_without_alert", 1)
+		}
 		if a.Err != "" {
 			out.Unk = true
 			if strings.HasPrefix(a.Err, "response carries tag") {
 				c.Violation("response-of-another-request-"+r.Kind, "%s", a.Err)
 			} else {
 				run.Count("transport_anomalies", 1)
+				c.Ev("anomaly", "req", r, "err", a.Err)
+				debugf("case %d anomaly: %+v: %s", c.Idx, r, a.Err)
 			}
 		}
 		record(client, hIn{Op: "lookup", Req: r}, out, call, ret)
@@ -316,14 +325,27 @@ func historyCase(c *h.Case) {
 	mu.Lock()
 	hist := append([]porcupine.Operation(nil), ops...)
 	mu.Unlock()
+	tripleOf := map[string]int{}
+	for _, op := range hist {
+		if in := op.Input.(hIn); in.Op == "reg" {
+			tripleOf[in.Ident] = in.Triple
+		}
+	}
 	for k, op := range hist {
 		in := op.Input.(hIn)
 		out := op.Output.(hOut)
 		if in.Op != "lookup" || out.Unk || out.Owner == "" {
 			continue
 		}
+		if ti, ok := tripleOf[out.Owner]; !ok || !trs[ti].matches(kind, in.Req.Host, in.Req.Target, in.Req.User) {
+			// independent of any table state: a proxy must never get a request its route does not match
+			c.Violation("request-served-by-non-matching-route-"+kind, "%s request host=%q target=%q user=%q was answered by %s, whose only route %v does not match it", kind, in.Req.Host, in.Req.Target, in.Req.User, out.Owner, trs[ti])
+			out.Unk = true
+			hist[k].Output = out
+			continue
+		}
 		if t, ok := closeRet[out.Owner]; ok && t < op.Call {
-			c.Violation(kind+"-request-served-by-closed-proxy-in-concurrent-history", "%s request host=%q target=%q user=%q sent at %d was answered by %s whose close was acknowledged at %d", kind, in.Req.Host, in.Req.Target, in.Req.User, op.Call, out.Owner, t)
+			c.Violation(kind+"-request-served-by-former-owner-after-reregistration", "%s request host=%q target=%q user=%q sent at %d was answered by %s whose close was acknowledged at %d", kind, in.Req.Host, in.Req.Target, in.Req.User, op.Call, out.Owner, t)
 			out.Unk = true
 			hist[k].Output = out
 		}
@@ -331,7 +353,29 @@ func historyCase(c *h.Case) {
 	res, _ := porcupine.CheckOperationsVerbose(historyModel(kind, trs), hist, 60*time.Second)
 	switch res {
 	case porcupine.Illegal:
-		c.Violation("route-history-not-linearizable-"+kind, "history of %d operations over triples %v (%s) is not linearizable w.r.t. the route-table model and the selection specification", len(hist), trs, kind)
+		// second question: is the history legal once answers of proxies whose close was acknowledged before the
+		// answer arrived (request and close overlapped) are discounted? Then the witness is a stale former owner.
+		weak := append([]porcupine.Operation(nil), hist...)
+		discounted := 0
+		for k, op := range weak {
+			in, out := op.Input.(hIn), op.Output.(hOut)
+			if in.Op == "lookup" && !out.Unk && out.Owner != "" {
+				if t, ok := closeRet[out.Owner]; ok && t < op.Return && closeCall[out.Owner] < op.Call {
+					out.Unk = true
+					weak[k].Output = out
+					discounted++
+				}
+			}
+		}
+		res2 := porcupine.Illegal
+		if discounted > 0 {
+			res2, _ = porcupine.CheckOperationsVerbose(historyModel(kind, trs), weak, 60*time.Second)
+		}
+		if res2 == porcupine.Ok {
+			c.Violation("stale-owner-answer-in-concurrent-history-"+kind, "history of %d operations over triples %v (%s) is not linearizable; it is once %d answers are discounted that were given by proxies whose close had been sent before the request and was acknowledged before the answer", len(hist), trs, kind, discounted)
+		} else {
+			c.Violation("route-history-not-linearizable-"+kind, "history of %d operations over triples %v (%s) is not linearizable w.r.t. the route-table model and the selection specification", len(hist), trs, kind)
+		}
 	case porcupine.Unknown:
 		run.Inconclusive("porcupine timeout")
 	}
